@@ -265,6 +265,36 @@ func cmdCheck(args []string) int {
 			}
 		}
 	}
+	// thorough tier: replay recipes of this property on the real code (canaries / regressions)
+	var recipeLines []string
+	if *tier == "thorough" {
+		for _, rc := range loadRecipes(root) {
+			has := false
+			for _, pr := range rc.Properties {
+				if pr == *prop {
+					has = true
+				}
+			}
+			if !has {
+				continue
+			}
+			passed, tr := runRecipe(root, *repo, rc)
+			recipeLines = append(recipeLines, fmt.Sprintf("recipe %s expect=%s passed=%v", rc.Name, rc.Expect, passed))
+			switch {
+			case rc.Expect == "pass" && !passed:
+				nViol++
+				path := filepath.Join(work, "replay", "recipe_"+rc.Name+".json")
+				_ = os.MkdirAll(filepath.Dir(path), 0755)
+				b, _ := json.MarshalIndent(map[string]interface{}{"property": *prop, "recipe": rc.Name, "what": rc.What, "transcript": tr, "reproduced_on_real_code": true,
+					"replay_cmd": "bin/govc recipes " + rc.Name}, "", " ")
+				_ = os.WriteFile(path, b, 0644)
+				fmt.Printf("VIOLATION property=%s replay=%s a repaired defect reproduces again on the real code: %s\n", *prop, path, rc.What)
+				exit = 1
+			case rc.Expect == "fail" && passed:
+				fmt.Printf("NOTE: known finding no longer reproduces on the real code: %s (%s)\n", rc.Name, rc.What)
+			}
+		}
+	}
 	// expectation: obligation names that must exist
 	missing := checkExpect(root, *prop, obls)
 	for _, m := range missing {
@@ -300,6 +330,7 @@ func cmdCheck(args []string) int {
 		"cover_queries":          nCover,
 		"cover_sat":              nCoverOK,
 		"known_findings":         knownList,
+		"replay_recipes":         recipeLines,
 		"failed_obligations":     namesOf(failedObl),
 		"exhaustive":             false,
 		"explanation":            fmt.Sprintf("%d of %d proof obligations discharged (unsat); %d failed obligations of which %d are recorded known findings; %d/%d vacuity covers satisfiable", nDis, nProve, len(failed), len(findingLines), nCoverOK, nCover),
